@@ -341,6 +341,57 @@ theorem blocked_only_without_newer_picker {s : Sys} {log : List Obs} (hr : Reach
     apply tstep_block_stuck b hpc _ h3
     simp [Shared.chClosed, h2, h1]
 
+/-! ### which RPCs are fail-fast: the call site `csAttempt.getTransport` -/
+
+/-- **Every attempt of an RPC picks with the RPC's own fail-fast flag**: the pick started by
+    `getTransport` for an RPC in call state `cs` gets `failfast = cs.callInfo.failFast`, whatever
+    `numRetries` and `firstAttempt` are (first attempt, transparent retry, policy retry alike). -/
+theorem attempt_pick_failfast_is_rpc_failfast (s : Sys) (tid : Nat) (cs : CallState) (hnew : s.thr tid = none) :
+    (step s (attemptStart tid cs)).1.thr tid = some (newThread cs.failFast) ∧
+    (step s (attemptStart tid cs)).2 = some (Obs.started tid s.sh.cur) := by
+  simp [attemptStart, attemptFailfast, step, hnew, setThr_thr]
+
+/-- **No attempt of a wait-for-ready RPC ever fails because the picker returned a non-status
+    error**: after `getTransport` started the pick of an attempt of an RPC with
+    `callInfo.failFast = false` — for ANY `numRetries` / `firstAttempt` — no continuation of the
+    interleaving makes that pick return UNAVAILABLE. (By `blocks_rather_than_fails` its only error
+    returns are closing, context expiry and a picker status error; otherwise it blocks until a
+    newer picker: `blocking_result_blocks_until_newer_picker`.) -/
+theorem wait_for_ready_attempt_never_fails_on_picker_error (s : Sys) (tid : Nat) (cs : CallState)
+    (hnew : s.thr tid = none) (hwfr : cs.failFast = false) (acts : List Act) (log0 : List Obs) (e : Nat)
+    (h : Obs.returned tid (Outcome.unavailable e) ∈ (runFrom (step s (attemptStart tid cs)).1 log0 acts).2) :
+    Obs.returned tid (Outcome.unavailable e) ∈ log0 := by
+  have key : ∀ (acts : List Act) (s1 : Sys) (log : List Obs), (∃ t, s1.thr tid = some t ∧ t.failfast = false) →
+      Obs.returned tid (Outcome.unavailable e) ∈ (runFrom s1 log acts).2 → Obs.returned tid (Outcome.unavailable e) ∈ log := by
+    intro acts
+    induction acts with
+    | nil => intro s1 log _ hm; exact hm
+    | cons a as ih =>
+      intro s1 log hP hm
+      obtain ⟨t, ht, hf⟩ := hP
+      obtain ⟨t', ht', hf'⟩ := step_failfast a ht
+      have := ih (step s1 a).1 (log ++ (step s1 a).2.toList) ⟨t', ht', by rw [hf', hf]⟩ hm
+      rcases List.mem_append.mp this with h1 | h1
+      · exact h1
+      · exfalso
+        cases ho : (step s1 a).2 with
+        | none => rw [ho] at h1; simp at h1
+        | some ev =>
+          rw [ho] at h1; simp at h1
+          have hb := blocks_rather_than_fails s1 a tid (Outcome.unavailable e) (by rw [ho, h1])
+          obtain ⟨_, u, hu, hff⟩ := hb
+          rw [ht] at hu; simp at hu; subst hu
+          rw [hf] at hff; cases hff
+  apply key acts _ log0 _ h
+  exact ⟨newThread cs.failFast, (attempt_pick_failfast_is_rpc_failfast s tid cs hnew).1, by simp [newThread, hwfr]⟩
+
+/-- a retry attempt (numRetries = 1) of a wait-for-ready RPC whose picker returns a plain error
+    blocks on that generation and re-picks on the next picker -/
+example : (run [.update (some 1), attemptStart 1 { failFast := false, numRetries := 1, firstAttempt := false }, .step 1 false,
+                .pickRet 1 (.otherErr 7), .step 1 false, .update (some 2), .step 1 false, .step 1 false]).2 =
+    [.published 1 (some 1), .started 1 1, .pickCalled 1 1 1, .blocked 1 1, .published 2 (some 2), .pickCalled 1 2 2] := by
+  decide
+
 /-! ### non-vacuity: concrete interleavings (evaluated by the kernel) -/
 
 /-- pick 1 starts with no picker and blocks on generation 0; `updatePicker` publishes generation 1;
